@@ -10,6 +10,7 @@ import FuraxGenerated.Tables
 import FuraxProofs.Lemmas.Nary
 import FuraxProofs.Lemmas.ScalarModel
 import FuraxProofs.Lemmas.RuleLawsModel
+import FuraxProofs.Sem.ListModel
 namespace Furax.C01
 open Furax
 
@@ -42,6 +43,33 @@ theorem reduce_sound {V : Type} (A : ArithSem V) (laws : RuleLaws A) (extra : Co
       WTExpr A.invertible laws.leafOK r ∧ Op.inS r = Op.inS o ∧ Op.outS r = Op.outS o ∧
       ∀ x, A.mem (Op.inS o) x → A.den r x = A.den o x :=
   Furax.reduce_sound A laws extra
+
+/-- **The closed statement.**  In the list denotation (FuraxProofs/Sem/ListSem.lean: every operator is the map on
+flat real vectors assembled from the executable kernels the driver runs — gather / scatter-add, move-axis,
+broadcasting diagonal, Mueller kernels — and leaf classes no rule inspects are arbitrary homogeneous maps `E`),
+ALL the leaf laws are theorems, so no semantic hypothesis is left: for every expression whose nodes passed their
+constructors' validation (`listLeafOK`: shapes fit, index values in bounds, a `unique_indices=True` promise is
+true, rotation angles broadcast to the leaf shape; lazy inverses wrap invertible operands), `reduce` returns an
+expression with the same structures that computes the same vector for every input. -/
+theorem reduce_sound_closed (E : ListSem.Env) (fuel : Nat) (o r : Op)
+    (hw : WTExpr (ListSem.listArithSem E).invertible ListSem.listLeafOK o) (h : reduce fuel o = .ok r) :
+    WTExpr (ListSem.listArithSem E).invertible ListSem.listLeafOK r ∧ Op.inS r = Op.inS o ∧ Op.outS r = Op.outS o ∧
+    ∀ x : List ℝ, x.length = (Op.inS o).size → ListSem.den E r x = ListSem.den E o x :=
+  ListSem.reduce_sound_closed E fuel o r hw h
+
+/-- the same for the entry point -/
+theorem reduceTop_sound_closed (E : ListSem.Env) (o r : Op)
+    (hw : WTExpr (ListSem.listArithSem E).invertible ListSem.listLeafOK o) (h : reduceTop o = .ok r) :
+    WTExpr (ListSem.listArithSem E).invertible ListSem.listLeafOK r ∧ Op.inS r = Op.inS o ∧ Op.outS r = Op.outS o ∧
+    ∀ x : List ℝ, x.length = (Op.inS o).size → ListSem.den E r x = ListSem.den E o x :=
+  ListSem.reduceTop_sound_closed E o r hw h
+
+/-- the faithful model inhabits the framework: the laws of `reduce_sound` are satisfied by vectors of the declared
+sizes (not only by the degenerate witness below) -/
+theorem faithful_model (E : ListSem.Env) :
+    ∃ (A : ArithSem (List ℝ)) (laws : RuleLaws A), ContainerLaws A laws ∧ A.den = ListSem.den E ∧
+      (∀ s x, A.mem s x ↔ x.length = s.size) :=
+  ⟨ListSem.listArithSem E, ListSem.listRuleLaws E, ListSem.listContainerLaws E, rfl, fun _ _ => Iff.rfl⟩
 
 /-- the entry point the driver executes for the `reduce` request -/
 theorem reduceTop_sound {V : Type} (A : ArithSem V) (laws : RuleLaws A) (extra : ContainerLaws A laws)
